@@ -235,6 +235,13 @@ def run(ctx: Any, prog: Program) -> None:
                                       for s2 in l.orelse for x in ast.walk(s2))
                         if in_body and in_else:
                             ok = True
+                        # canonicalising loop: `for k in self._keys: if k.casefold() == <folded key>: key = k; break` - afterwards `key` is the stored
+                        # spelling whenever one matches case-insensitively, and otherwise no spelling of it is stored at all
+                        canon = any(isinstance(i, ast.If) and 'casefold' in ast.unparse(i.test) and l.target.id in {x.id for x in ast.walk(i.test) if isinstance(x, ast.Name)}
+                                    and any(isinstance(x, ast.Assign) and any(dotted(t) == kname for t in x.targets) and dotted(x.value) == l.target.id for x in i.body)
+                                    and isinstance(i.body[-1], ast.Break) for i in l.body if isinstance(i, ast.If))
+                        if in_body and canon and not l.orelse:
+                            ok = True
             if not ok:
                 why = why or 'the key expression is the caller\'s spelling (or a constant), not a spelling known to be stored'
             ctx.check('C07.I8', ok, vm, n, f'Entity.{name}: `{ast.unparse(n)[:60]}` addresses the case-preserving key store with `{ast.unparse(key_expr)}`: {why or "stored spelling"}; '
@@ -309,10 +316,9 @@ def run(ctx: Any, prog: Program) -> None:
                                   'loses its classname matches', text='search: indexes combined with `or`')
                 else:
                     continue
-                if isinstance(n, ast.Assign):
-                    for x in ast.walk(n.value):
-                        if isinstance(x, ast.Name) and x.id in derived:
-                            srcs = srcs | derived[x.id]
+                for x in ast.walk(n.value if isinstance(n, ast.Assign) else n.iter):
+                    if isinstance(x, ast.Name) and x.id in derived:
+                        srcs = srcs | derived[x.id]
                 for t in tg:
                     for e in ast.walk(t):
                         if isinstance(e, ast.Name) and not srcs <= derived.get(e.id, set()):
